@@ -4,13 +4,16 @@ core/operators.py Integrator).
 
 Three kinds of cases:
 * coordinate-class cases (`cls` present; generators and the independent geodesy in c17coords.py): one track whose positions
-  are ENUCoords / GeoCoords / ECEFCoords, an op word over {a, s, c, d, o}; model `Model/CinematicsCoords.lean` (driver
+  are ENUCoords / GeoCoords / ECEFCoords, an op word over {a, s, S, c, d, o}; model `Model/CinematicsCoords.lean` (driver
   `C17.coords`);
 * single-track cases (`kind` enum / lattice-* / float* / pre-* / single): one fresh track, optional features present
-  beforehand, an op word over {a = computeAbsCurv, s = estimate_speed}; model `Model/Cinematics.lean` (driver `C17.run`);
+  beforehand, an op word over {a = computeAbsCurv, s = estimate_speed(track), S = track.estimate_speed()}; model
+  `Model/Cinematics.lean` (driver `C17.run`);
 * world histories (`hist` present; generators and the oracle's bookkeeping in c17world.py): observations shared between
   tracks, every entry point, in-place edits of positions and timestamp fields; model `Model/CinematicsTab.lean`
-  (driver `C17.world`). The oracle recomputes from the CURRENT positions and stamps after every operation."""
+  (driver `C17.world`). The oracle recomputes from the CURRENT positions and stamps after every operation.
+In every stream the stamps may carry `zone` fields ("zones" of the case; a track merged from loggers set to different zones):
+every field of every stamp, zone included, must be what it was after every computation."""
 import math, calendar, itertools, time as _time
 from fractions import Fraction
 from engine import Prop, fbits, bitsf, ratstr, parse_rat, tok_list, untok, close, err_kind
@@ -92,7 +95,7 @@ class P(Prop):
     rule = ("exhaustive: all tracks of 2..4 (quick) / 2..5 (thorough) fixes whose legs are k*(3,4), k in {-1,0,1,2}, with dt in {0,1,2} s, op word 'asas'; "
             "all histories of 2 (quick) / 3 (thorough) operations over {computeAbsCurv, estimate_speed on a track and on a section sharing its observations, "
             "addAnalyticalFeature(speed), remove abs_curv / speed, in-place edit of a position / of a timestamp field / of a zone field, duration()} on a 4-fix pool; "
-            "random single-track cases: exact lattice tracks at Rat, float tracks (short 1e-6 / long 1e7 legs, repeated positions and timestamps, millisecond stamps) at Float, "
+            "random single-track cases (2..8 fixes, one in 40 of 16..300 fixes): exact lattice tracks at Rat, float tracks (short 1e-6 / long 1e7 legs, repeated positions and timestamps, millisecond stamps) at Float, "
             "tracks with features present beforehand, op words over {a = computeAbsCurv, s = estimate_speed(track), S = track.estimate_speed()}; 25 % of these tracks carry zone fields "
             "(one non-zero zone, two loggers set to different zones, a zone per fix); "
             "random WORLD histories (c17world.py): a pool of 3..8 observations, tracks made by +, extract, slicing (shared Obs objects) and copy(), every entry point "
@@ -104,7 +107,7 @@ class P(Prop):
             "elapsed time = difference of the clock readings; between two stamps of DIFFERENT zones the difference of the instants is accepted as well (the statement does not say which); "
             "COORDINATE CLASSES (c17coords.py): directed walks (Paris, date line, equator, pole, climb) as GeoCoords and as ECEFCoords, then random tracks of 1..8 fixes, 60 % GeoCoords "
             "(steps 0 / 1e-8 .. 1 degree along a parallel, a meridian or oblique, heights -400..9000 m with jumps, longitudes wrapping at +-180, latitudes up to the poles), 20 % ENUCoords, 20 % ECEFCoords, "
-            "op words over {computeAbsCurv, estimate_speed, computeCurvAbsBetweenTwoPoints, addAnalyticalFeature(ds), Obs.distance2DTo of consecutive fixes}, features present beforehand; the oracle recomputes "
+            "op words over {computeAbsCurv, estimate_speed (function, method), computeCurvAbsBetweenTwoPoints, addAnalyticalFeature(ds), Obs.distance2DTo of consecutive fixes}, features present beforehand, 25 % with zone fields; the oracle recomputes "
             "the planimetric distance of Geo fixes with its own geodesy (tangent frame at either fix accepted, 1e-6 m allowance) and checks positions, their CLASS and the stamps after every case, refused or not. "
             "non-trivial = at least 2 fixes, one non-zero leg (world: and at least one computation; coords: a class that defines a planimetric distance)")
 
@@ -159,7 +162,7 @@ class P(Prop):
         # one track per coordinate class (c17coords.py): directed walks first, then random
         out += C.enum_coords()
         for _ in range(nrand):
-            out.append(C.gen_coords(rng, self.times))
+            out.append(self.with_zones(rng, C.gen_coords(rng, self.times)))
         # single-fix tracks (outside the statement: correspondence only)
         for _ in range(20):
             out.append({"kind": "single", "mode": "q", "pos": [[rng.randrange(-5, 5), rng.randrange(-5, 5), 1]],
@@ -175,8 +178,12 @@ class P(Prop):
             t.append(t[-1] + d)
         return t
 
+    def size(self, rng):
+        """2..8 fixes; one track in 40 is long (a branch taken only above some size must not escape)"""
+        return rng.choice([16, 33, 64, 129, 300]) if rng.random() < 0.025 else rng.randrange(2, 9)
+
     def lattice(self, rng):
-        n = rng.randrange(2, 9)
+        n = self.size(rng)
         shape = rng.choice(["line", "rect", "axis"])
         bx, by = rng.randrange(-50, 50), rng.randrange(-50, 50)
         pos = []
@@ -219,7 +226,7 @@ class P(Prop):
         return case
 
     def floaty(self, rng):
-        n = rng.randrange(2, 9)
+        n = self.size(rng)
         x, y = rng.uniform(-1000, 1000), rng.uniform(-1000, 1000)
         pos = []
         for _ in range(n):
@@ -408,7 +415,7 @@ class P(Prop):
         for _ in range(20):
             yield W.gen_world(rng)
         for _ in range(10):
-            yield C.gen_coords(rng, self.times)
+            yield self.with_zones(rng, C.gen_coords(rng, self.times))
 
     def search_cases(self, rng):
         """failing-input search after a broken correspondence: three more draws of the quick generators (the thorough
@@ -444,10 +451,8 @@ class P(Prop):
     def c_build(self, case):
         cls = self.COORDS[case["cls"]]
         tr = self.Track([], 1)
-        for p, tms in zip(case["pos"], case["tms"]):
-            t = self.T.readUnixTime(tms // 1000)
-            t.ms = tms % 1000
-            tr.addObs(self.Obs(cls(p[0], p[1], p[2]), t))
+        for p, tms, z in zip(case["pos"], case["tms"], W.zones_of(case)):
+            tr.addObs(self.Obs(cls(p[0], p[1], p[2]), self.stamp(tms, z)))
         for name, col in case["feats"]:
             tr.createAnalyticalFeature(name)
             for i, v in enumerate(col):
@@ -474,6 +479,8 @@ class P(Prop):
                     r = list(self.computeAbsCurv(tr))
                 elif op == "s":
                     r = list(self.estimate_speed(tr))
+                elif op == "S":
+                    r = list(tr.estimate_speed())
                 elif op == "d":
                     r = list(tr.addAnalyticalFeature(self.ds, "ds"))
                 elif op == "c":
@@ -488,21 +495,22 @@ class P(Prop):
                 r = self.c_err(e)
             rets.append(r)
         feats = [[nm, list(tr.getAnalyticalFeature(nm))] for nm in tr.getListAnalyticalFeatures()]
-        xyz, tms, classes = [], [], []
+        xyz, tms, classes, zones = [], [], [], []
         for i in range(tr.size()):
             o = tr.getObs(i)
             xyz.append([o.position.getX(), o.position.getY(), o.position.getZ()])
             classes.append(type(o.position).__name__)
             s = o.timestamp
             tms.append(calendar.timegm((s.year, s.month, s.day, s.hour, s.min, s.sec)) * 1000 + s.ms)
-        return {"rets": rets, "feats": feats, "xyz": xyz, "classes": classes, "tms": tms, "n": tr.size()}
+            zones.append(s.zone)
+        return {"rets": rets, "feats": feats, "xyz": xyz, "classes": classes, "tms": tms, "zones": zones, "n": tr.size()}
 
     def c_requests(self, case):
         enc = lambda v: "nan" if v == "nan" else fbits(v)
         cols = [tok_list(enc(float(p[k])) for p in case["pos"]) for k in range(3)]
         ts = tok_list(fbits((t // 1000) + (t % 1000) / 1000.0) for t in case["tms"])
         feats = tok_list((nm + ":" + tok_list(enc(v) for v in col) for nm, col in case["feats"]), sep=";")
-        return ["C17.coords %s %s %s %s %s %s %s" % (case["cls"], cols[0], cols[1], cols[2], ts, feats, case["ops"])]
+        return ["C17.coords %s %s %s %s %s %s %s" % (case["cls"], cols[0], cols[1], cols[2], ts, feats, case["ops"].replace("S", "s"))]
 
     def c_decode(self, case, replies):
         r = replies[0]
@@ -525,7 +533,8 @@ class P(Prop):
             feats.append([nm, [bitsf(w) for w in untok(col)]])
         # the model has no operation that writes a position or a stamp (`CinCoords.pure_coords`): they are the inputs
         return {"rets": rets, "feats": feats, "xyz": [[float(v) for v in p] for p in case["pos"]],
-                "classes": [self.COORDS[case["cls"]].__name__] * len(case["pos"]), "tms": list(case["tms"]), "n": len(case["pos"])}
+                "classes": [self.COORDS[case["cls"]].__name__] * len(case["pos"]), "tms": list(case["tms"]), "zones": W.zones_of(case),
+                "n": len(case["pos"])}
 
     def c_spec(self, case, out):
         if "err" in out:
@@ -539,6 +548,9 @@ class P(Prop):
             return "the class of the position objects changed: %s" % out["classes"]
         if out["tms"] != tms:
             return "timestamps changed: %s -> %s" % (tms, out["tms"])
+        zones = W.zones_of(case)
+        if out["zones"] != zones:
+            return "timestamps changed: their zone fields were %s, are %s" % (zones, out["zones"])
         given = {nm for nm, _ in case["feats"]}
         after = dict((nm, col) for nm, col in out["feats"])
         for nm, col in case["feats"]:
@@ -558,8 +570,8 @@ class P(Prop):
                 msg = self.chk_abscurv_rng(r, legs)
             elif op == "d":
                 msg = self.chk_ds_rng(r, legs)
-            elif op == "s" and "speed" not in given:
-                msg = self.chk_speed_rng(r, cls, pos, tms)
+            elif op in "sS" and "speed" not in given:
+                msg = self.chk_speed_rng(r, cls, pos, tms, zones)
             elif op == "c":
                 lo, hi, at = math.fsum(l[0] for l in legs), math.fsum(l[1] for l in legs), sum(l[2] for l in legs)
                 if isnan(r) or r < lo - at - 1e-9 * lo or r > hi + at + 1e-9 * hi:
@@ -575,10 +587,10 @@ class P(Prop):
             if msg:
                 return "operation %d (%s) on a track of %s: %s" % (j, op, self.COORDS[cls].__name__, msg)
         # the feature is observed both ways: what the call returned is what track['abs_curv'] / track['speed'] reads
-        for op, nm in (("a", "abs_curv"), ("s", "speed")):
-            last = [r for o, r in zip(case["ops"], out["rets"]) if o == op]
+        for op, nm in (("a", "abs_curv"), ("sS", "speed")):
+            last = [r for o, r in zip(case["ops"], out["rets"]) if o in op]
             if last and (nm not in after or not close(after[nm], last[-1], 0.0, 0.0)):
-                return "%s returned %s but track['%s'] reads %s" % ({"a": "computeAbsCurv", "s": "estimate_speed"}[op], last[-1], nm, after.get(nm))
+                return "%s returned %s but track['%s'] reads %s" % ({"a": "computeAbsCurv", "sS": "estimate_speed"}[op], last[-1], nm, after.get(nm))
         return None
 
     def chk_abscurv_rng(self, s, legs):
@@ -613,7 +625,9 @@ class P(Prop):
                 return "ds[%d] = %r, planimetric distance to the previous fix is %r" % (i + 1, d[i + 1], lo)
         return None
 
-    def chk_speed_rng(self, v, cls, pos, tms):
+    def chk_speed_rng(self, v, cls, pos, tms, zones=None):
+        """as chk_speed, the distance of each pair known as a range (lo, hi, absolute allowance); between stamps of different
+        zones the difference of the readings and the difference of the instants are both accepted as the elapsed time"""
         n = len(pos)
         if not isinstance(v, list) or len(v) != n:
             return "speed has %s values for %d fixes" % (len(v) if isinstance(v, list) else v, n)
@@ -622,23 +636,36 @@ class P(Prop):
         tmax = max(abs(t) for t in tms) / 1000.0
         for i in range(n):
             a, b = (1, 0) if i == 0 else (n - 1, n - 2) if i == n - 1 else (i + 1, i - 1)
-            el = Fraction(tms[a] - tms[b], 1000)
-            if el == 0:
-                if not isnan(v[i]):
-                    return "speed[%d] = %r although no time elapsed between fixes %d and %d (NaN expected)" % (i, v[i], b, a)
+            els = [Fraction(tms[a] - tms[b], 1000)]
+            if zones is not None and zones[a] != zones[b]:
+                els.append(els[0] - 3600 * (zones[a] - zones[b]))
+            if isnan(v[i]):
+                if all(el != 0 for el in els):
+                    return "speed[%d] is NaN although %s s elapsed between fixes %d and %d" % (i, float(els[0]), b, a)
                 continue
+            if all(el == 0 for el in els):
+                return "speed[%d] = %r although no time elapsed between fixes %d and %d (NaN expected)" % (i, v[i], b, a)
             lo, hi, at = C.leg_range(cls, pos[a], pos[b])
-            rel = 1e-9 + (4 * ulp(tmax) / float(el) if any(t % 1000 for t in tms) else 0.0)
-            wlo, whi = lo / float(el), hi / float(el)
-            if isnan(v[i]) or v[i] < wlo - rel * wlo - at / float(el) or v[i] > whi + rel * whi + at / float(el):
-                return ("speed[%d] = %r, expected distance(fix %d, fix %d) / elapsed = %r / %s = %r"
-                        % (i, v[i], b, a, lo, float(el), wlo))
+            bad = None
+            for el in els:
+                if el == 0:
+                    continue
+                fe = float(el)
+                rel = 1e-9 + (4 * ulp(tmax) / abs(fe) if any(t % 1000 for t in tms) else 0.0)
+                wlo, whi = sorted((lo / fe, hi / fe))
+                if wlo - rel * abs(wlo) - at / abs(fe) <= v[i] <= whi + rel * abs(whi) + at / abs(fe):
+                    bad = None
+                    break
+                bad = bad or ("speed[%d] = %r, expected distance(fix %d, fix %d) / elapsed = %r / %s = %r"
+                              % (i, v[i], b, a, lo, fe, lo / fe))
+            if bad:
+                return bad
         return None
 
     def c_describe(self, case):
         n = len(case["pos"])
         t = case["tms"]
-        return {"kind": case["kind"], "n": n, "ops": "".join(sorted(set(case["ops"]))), "pre": bool(case["feats"]),
+        return {"kind": case["kind"], "n": n, "ops": "".join(sorted(set(case["ops"]))), "pre": bool(case["feats"]), "zones": self.zone_tag(W.zones_of(case)),
                 "repeated_pos": any(case["pos"][i] == case["pos"][i + 1] for i in range(n - 1)),
                 "repeated_time": any(t[i] == t[i + 1] for i in range(n - 1))}
 
